@@ -136,6 +136,27 @@ pub fn run(ctx: &Ctx) -> Report {
             acc
         })
         .reduce(Acc::default, |a, b| a.merge(b));
+    // messages with many attributes (n = 1..=70 cut inside and right behind each attribute header of
+    // the tail; n = 33, 64, 65, 66, 100, 129, 257, 1025 at every cut point): a walk over the partial
+    // attributes that gives up after some number of them answers something other than Truncated
+    let mut many_msgs: Vec<(Vec<u8>, bool)> = Vec::new();
+    for n in (1..=70usize).chain([100, 129, 257, 1025]) {
+        let mut b = wire::encode_header(0, 8, 0x6162_6364_6566_6768_696A_6B6C, 0);
+        for i in 0..n {
+            wire::append_raw(&mut b, 0x0012, &[0, 1, (i >> 8) as u8, i as u8, 10, 0, (i >> 8) as u8, i as u8]);
+        }
+        many_msgs.push((b, matches!(n, 33 | 64 | 65 | 66 | 100 | 129 | 257)));
+    }
+    let many_cases: Vec<Case> = many_msgs
+        .iter()
+        .flat_map(|(b, every)| {
+            let every = *every;
+            (0..b.len()).filter(move |k| every || *k % 12 <= 5 || *k + 30 > b.len()).map(move |k| Case::new("prefix", b.clone()).args(&[k as i64]))
+        })
+        .collect();
+    let n_many = many_msgs.len() as u64;
+    let mut acc_many = sweep(many_cases.into_par_iter(), judge);
+    acc_many.nontrivial += n_many;
     // messages around the 16-bit length boundary: cut points 0..=300, the last 300, every power
     // of two +-1 and every 251st in between (the parser answers a short prefix from the header alone)
     let mut huge: Vec<Vec<u8>> = Vec::new();
@@ -226,11 +247,11 @@ pub fn run(ctx: &Ctx) -> Report {
         }
     }
     let acc3 = acc3.merge(sweep(hcases.into_par_iter(), judge));
-    let acc = acc1.merge(acc2).merge(acc3).merge(acc_nested).merge(acc_types);
+    let acc = acc1.merge(acc2).merge(acc3).merge(acc_nested).merge(acc_types).merge(acc_many);
     Report {
         acc,
         exhaustive: true,
-        rule: "every well-formed message of the skeleton space (x4 header variants, one per class), all 16 384 (class, method) pairs x five small bodies (unaligned / empty / aligned last attribute, FINGERPRINT), 144 messages carrying a relayed STUN message or a value that reads as a sealing attribute at four alignments, and 10 builder-made messages with attribute lengths up to 763 x every cut point 0..len; 5 messages of 4 KiB .. 65 552 bytes x cut points {0..=300, last 300, powers of two +-1, every 251st}; header decoder on all 65536 type fields x 7 length fields x cookie ok/off, all 65536 length fields x 3 types, every cookie bit, walking-one / walking-zero / byte-lane transaction ids; distinct_nontrivial counts the well-formed messages".into(),
+        rule: "every well-formed message of the skeleton space (x4 header variants, one per class), all 16 384 (class, method) pairs x five small bodies (unaligned / empty / aligned last attribute, FINGERPRINT), messages of 1..=70 / 100 / 129 / 257 / 1025 attributes, 144 messages carrying a relayed STUN message or a value that reads as a sealing attribute at four alignments, and 10 builder-made messages with attribute lengths up to 763 x every cut point 0..len; 5 messages of 4 KiB .. 65 552 bytes x cut points {0..=300, last 300, powers of two +-1, every 251st}; header decoder on all 65536 type fields x 7 length fields x cookie ok/off, all 65536 length fields x 3 types, every cookie bit, walking-one / walking-zero / byte-lane transaction ids; distinct_nontrivial counts the well-formed messages".into(),
         bounds: json!({"skeletons": sk.len(), "cut_points": "all", "header_space": 65536 * 14}),
         assumptions: vec![],
         ..Default::default()
